@@ -381,8 +381,9 @@ REGISTRY["C16"] = {
                    "inside containers) - read-back value and item type must equal canon(v); nothing panics (a panic in an engine goroutine kills the worker and "
                    "is recovered from the journal); variables never cross instances. TestC16Isolation: 2..5 instances of one document (an exclusive gateway whose flows test v0..v3, expr or XPath) in one program, one after another or alive together, from one parsed model or several, each with its own subset of the variables: every instance must be routed by its own variables only - a variable it does not have cannot make its condition true, whatever the other instances hold. "
                    "TestC16SetIsolation: 2..3 executable processes of one document run by a process set use the same variable names (task stores x / n, next task's inputs and a gateway read them), answered in any interleaving: "
-                   "what an instance's task is handed and where its gateway sends the token depends on what the instance itself stored, never on what another instance of the set stored meanwhile."),
-    "level_note": "Trusted: the reference canonicaliser in props/c16 (encoding/json), reflect. Typed declarations are only required not to panic (value survival is stated for variables, results and data objects, which use the inferred path). Pointers are single-level; integers inside containers are limited to +-2^53 (JSON numbers).",
+                   "what an instance's task is handed and where its gateway sends the token depends on what the instance itself stored, never on what another instance of the set stored meanwhile. "
+                   "TestC16TypedProps: a task declares 1..5 typed olive properties without a value, resolved from same-named variables drawn from a pool of matching, convertible and unrepresentable values (or absent): the item handed to the task carries the declared item type."),
+    "level_note": "Trusted: the reference canonicaliser in props/c16 (encoding/json), reflect. Typed declarations are required not to panic and to hand out the declared item type (value survival is stated for variables, results and data objects, which use the inferred path). Pointers are single-level; integers inside containers are limited to +-2^53 (JSON numbers).",
     "technique": "rapid property test: round trip against an independent canonicaliser; crash detection through worker journal",
     "rule": ("Distinct = (value spec, declared type | door, reference). Non-trivial = the value is not a plain string/int, or a declared type differs from the dynamic type, or a reference path is absent/malformed."),
     "tests": [
@@ -390,6 +391,7 @@ REGISTRY["C16"] = {
         {"name": "TestC16Engine", "checks": {"quick": 150, "thorough": 6000}, "shards": {"quick": 8, "thorough": 16}},
         {"name": "TestC16Isolation", "checks": {"quick": 80, "thorough": 3000}, "shards": {"quick": 4, "thorough": 8}},
         {"name": "TestC16SetIsolation", "checks": {"quick": 80, "thorough": 3000}, "shards": {"quick": 4, "thorough": 8}},
+        {"name": "TestC16TypedProps", "checks": {"quick": 300, "thorough": 20000}, "shards": {"quick": 2, "thorough": 8}},
         # reading a stored value back on EVERY visit of a task (task inputs after a loop back to the activity): the C08 campaign, run here too
         {"name": "TestC08Histories", "pkg": "props/c08", "label": "read-back-on-every-visit", "checks": {"quick": 150, "thorough": 5000}, "shards": {"quick": 4, "thorough": 8}},
         {"name": "FuzzC16ValueFrom", "mode": "fuzz", "tiers": ["thorough"], "checks": {"thorough": 120}, "shards": {"thorough": 1}, "limit": {"thorough": 900}},
